@@ -212,6 +212,7 @@ class Ctx:
         self.splits = []
         self.defs = {}
         self.decomps = Decomps(self)
+        self.membership = Membership(self)
 
     # ---- fresh symbols / path condition
     def fresh(self, name, sort):
@@ -467,6 +468,85 @@ def select_store(arr, idx):
             continue
         return z3.Select(arr, idx)
     return z3.Select(a, idx)
+
+
+def seq_parts(t):
+    """flatten nested seq.++ into its parts"""
+    if z3.is_app(t) and t.decl().kind() == z3.Z3_OP_SEQ_CONCAT:
+        out = []
+        for c in t.children():
+            out += seq_parts(c)
+        return out
+    if z3.is_app(t) and t.decl().kind() == z3.Z3_OP_SEQ_EMPTY:
+        return []
+    return [t]
+
+
+def seq_concat(parts, sort):
+    if not parts:
+        return z3.Empty(sort)
+    return parts[0] if len(parts) == 1 else z3.Concat(*parts)
+
+
+def syntactic_tail(t):
+    """t[1:] when t visibly starts with a unit, else None"""
+    p = seq_parts(t)
+    if p and z3.is_app(p[0]) and p[0].decl().kind() == z3.Z3_OP_SEQ_UNIT:
+        return seq_concat(p[1:], t.sort())
+    return None
+
+
+class Membership:
+    """x in <sequence of references> as an uninterpreted predicate mem(q, x) with its defining
+    equations instantiated on the ground terms of the path (DESIGN 3.5: no quantifier reaches the
+    solver): for every recorded equation  q == t1 . t2 ... tn  and every element of interest y,
+        mem(q, y) <=> expand(t1, y) or ... or expand(tn, y),   expand(Unit(t), y) = (t == y),
+    expand(empty, y) = false.  z3's own seq.contains is substring reasoning and goes unknown on these."""
+    def __init__(self, ctx):
+        self.ctx = ctx
+        self.eqs = []        # (q, rhs term)
+        self.elems = []
+        self.f = {}
+        self.known_tail = []   # (q, T): an assumed fact  q == [q[0]].T
+        self.unique_occ = []   # (q, x, A, B): an assumed fact  x in q => q == A.[x].B, x not in A, x not in B
+
+    def fn(self, sort):
+        k = sort.sexpr()
+        if k not in self.f:
+            self.f[k] = z3.Function('mem:' + k, sort, sort.basis(), BoolSort)
+        return self.f[k]
+
+    def expand(self, t, y):
+        if z3.is_app(t):
+            k = t.decl().kind()
+            if k == z3.Z3_OP_SEQ_CONCAT:
+                return z3.Or([self.expand(c, y) for c in t.children()])
+            if k == z3.Z3_OP_SEQ_UNIT:
+                return t.arg(0) == y
+            if k == z3.Z3_OP_SEQ_EMPTY:
+                return z3.BoolVal(False)
+        return self.fn(t.sort())(t, y)
+
+    def mem(self, q, y):
+        self.interest(y)
+        return self.expand(q, y)
+
+    def interest(self, y):
+        if any(e.eq(y) for e in self.elems):
+            return
+        self.elems.append(y)
+        for q, rhs, guard in self.eqs:
+            self.emit(q, rhs, guard, y)
+
+    def equation(self, q, rhs, guard=None):
+        """record  q == rhs  (already assumed by the caller, under guard) and instantiate membership at known elements"""
+        self.eqs.append((q, rhs, guard))
+        for y in self.elems:
+            self.emit(q, rhs, guard, y)
+
+    def emit(self, q, rhs, guard, y):
+        f = self.fn(q.sort())(q, y) == self.expand(rhs, y)
+        self.ctx.assume(f if guard is None else z3.Implies(guard, f))
 
 
 class Decomps:
